@@ -5,6 +5,7 @@ package main
 import (
 	"fmt"
 	"runtime/debug"
+	"strings"
 	"sync"
 
 	"github.com/moorara/algo/grammar"
@@ -83,8 +84,24 @@ func patternRun(p string) (out string) {
 // and returns the observable result of each.
 func opSequence(req request) response {
 	res := []string{}
-	for _, t := range texts(req) {
-		res = append(res, rawRun(t))
+	if d, _ := req["deferred"].(bool); d {
+		// every specification is parsed first, the results are looked at afterwards: what Parse handed out must still be what it was
+		type parsed struct {
+			s   *spec.Spec
+			err error
+		}
+		kept := []parsed{}
+		for _, t := range texts(req) {
+			s, err := spec.Parse("f", strings.NewReader(t))
+			kept = append(kept, parsed{s, err})
+		}
+		for _, k := range kept {
+			res = append(res, rawRender(k.s, k.err))
+		}
+	} else {
+		for _, t := range texts(req) {
+			res = append(res, rawRun(t))
+		}
 	}
 	pres := []string{}
 	if l, ok := req["patterns"].([]any); ok {
